@@ -740,6 +740,9 @@ def pick_tasks(ctx, offset=0, only_envs=None):
   for i, n in enumerate(chosen):
     b = SUPPORTED[n][(i + shift) % len(SUPPORTED[n])]
     tasks.append(make_task(n, b, ctx.seed + offset, 50, 8, 30, 1))
+  if 'swimmer' not in chosen and not only_envs and not forced:
+    # swimmer is the environment with a known platform problem (D6): probed on every run, short
+    tasks.append(make_task('swimmer', 'generalized', ctx.seed + offset, 12, 8, 8, 1))
   # heaviest first so the pool drains evenly
   tasks.sort(key=lambda t: (t['name'] not in HUMANOIDS, t['backend'] != 'generalized'))
   return tasks
